@@ -154,6 +154,16 @@ func TestC19(t *testing.T) {
 			f.Root.Props = append(f.Root.Props, model.Prop{Name: "zwide", Node: &model.Node{Kind: model.KRef, Ref: "#/$defs/ZWide", Target: wide}})
 			c.Count("shape.wide_struct_with_typed_additional")
 		}
+		untypedString := rapid.Bool().Draw(rt, "untypedstring")
+		if untypedString {
+			// string keywords on properties that state no type: whatever the tool makes of them, a
+			// value of any JSON type must be handled
+			f.Root.Props = append(f.Root.Props,
+				model.Prop{Name: "zuntypedlen", Node: &model.Node{Kind: model.KAny, Noise: []jv.KV{{K: "minLength", V: jv.IntV(3)}}}},
+				model.Prop{Name: "zuntypedmax", Node: &model.Node{Kind: model.KAny, Noise: []jv.KV{{K: "maxLength", V: jv.IntV(2)}}}},
+				model.Prop{Name: "zuntypedpat", Node: &model.Node{Kind: model.KAny, Noise: []jv.KV{{K: "pattern", V: jv.StrV("^[a-z]+$")}, {K: "minLength", V: jv.IntV(1)}}}})
+			c.Count("shape.string_keywords_without_type")
+		}
 		if rapid.IntRange(0, 2).Draw(rt, "localnames") == 0 {
 			// a type named like the local twin the methods declare (Plain): the method must not call itself
 			addLocalIdentifierDefs(rt, c, f)
@@ -220,6 +230,16 @@ func TestC19(t *testing.T) {
 					label string
 					b     []byte
 				}{"empty-string", e})
+			}
+			if untypedString && v.K == jv.Obj {
+				for _, key := range []string{"zuntypedlen", "zuntypedmax", "zuntypedpat"} {
+					for _, val := range []string{`12345`, `true`, `[1,"a"]`, `{"a":1}`, `"ab"`, `"ABCDEF"`, `null`, `1.5`} {
+						inputs = append(inputs, struct {
+							label string
+							b     []byte
+						}{"untyped-with-string-keywords", v.Set(key, jv.MustParse(val)).Marshal()})
+					}
+				}
 			}
 			muts, _ := docs.Mutants(rt, f.Root, v, kinds, &oo)
 			for k := range muts {
